@@ -1,7 +1,7 @@
 """C19 - GBS application helpers (apps/similarity.py, clique.py, subgraph.py, sample.py)
 
-Proved (unbounded): sample_to_event and orbit_to_sample on lists of symbolic length, against the
-exact integer specification, with builtins max/sum/shuffle under their library contracts.
+Proved (unbounded): sample_to_event, orbit_to_sample and sample.postselect on lists of symbolic
+length, against the exact integer specification, with builtins max/sum/shuffle under their library contracts.
 Bounded stand-in (labelled bounded, not counted as proved): native/c19_apps.py - partition
 enumeration, exact cardinalities, conversions, and clique/subgraph routines with EVERY outcome of
 every numpy.random.choice explored and compared with reference implementations of the documented
@@ -13,7 +13,7 @@ from pyvc.api import *
 S = "strawberryfields.apps.similarity"
 
 level("C19", "other",
-      "Mixed: proof obligations for sample_to_event / orbit_to_sample over lists of arbitrary length; everything else "
+      "Mixed: proof obligations for sample_to_event / orbit_to_sample / postselect over lists of arbitrary length; everything else "
       "(orbits, cardinalities, clique grow/swap/shrink, subgraph resize/search) is a BOUNDED stand-in: exhaustive over all "
       "labelled graphs on <= 4 (quick) / 5 (thorough) nodes, all start sets, all outcomes of every random choice, "
       "partitions of n <= 35/60, all orbits of n <= 8 x modes <= 60/200, compared with independent oracles. Bounded parts are "
@@ -99,3 +99,44 @@ def _orbit_to_sample(h):
     h.ensure("prefix-is-orbit", forall(lambda j: Implies(And(j >= 0, j < old.length()), s.at(j) == old.at(j))))
     h.ensure("rest-is-zero", forall(lambda j: Implies(And(j >= old.length(), j < modes), s.at(j) == 0)))
     h.ensure("orbit-argument-not-mutated", orbit == old)
+
+
+SA = "strawberryfields.apps.sample"
+
+
+@proof("C19", SA + ":postselect")
+def _postselect(h):
+    """samples = list of arbitrary length of opaque samples (ids) with an uninterpreted photon total;
+    builtins.sum on a sample is its total (library contract of sum, as above)"""
+    sa = h.module(SA)
+    samples = h.list("samples", "int")
+    lo, hi = h.int("min_count"), h.int("max_count")
+    total = h.eng.fresh_fun("total", z3.IntSort(), z3.IntSort())
+    g = sa.__dict__["__builtins__"]
+    old_sum = g["sum"]
+    g["sum"] = lambda x, *a, **k: SV(total(x.t)) if isinstance(x, SV) else old_sum(x, *a, **k)
+    try:
+        out = h.call(sa.postselect, samples, lo, hi)
+    finally:
+        g["sum"] = old_sum
+    h.ensure("no-exception", out.returned)
+    if not out.returned:
+        return
+    R = out.value
+    n = samples.length()
+    ok = lambda x: And(lo <= SV(total(x.t)), SV(total(x.t)) <= hi)
+    cnt = getattr(R, "ghost_cnt", None)
+    h.ensure("result-is-a-filter-of-the-input", cnt is not None)
+    if cnt is None:
+        return
+    c = lambda i: SV(cnt(i.t))
+    # the kept positions are exactly those whose total lies in [min_count, max_count] ...
+    h.ensure("kept-iff-within", forall(lambda i: Implies(And(i >= 0, i < n),
+                                                         (c(i + 1) == c(i) + 1) == ok(samples.at(i)))))
+    h.ensure("dropped-otherwise", forall(lambda i: Implies(And(i >= 0, i < n, Not(ok(samples.at(i)))),
+                                                           c(i + 1) == c(i))))
+    # ... kept in input order, unchanged
+    h.ensure("kept-sample-in-order", forall(lambda i: Implies(And(i >= 0, i < n, ok(samples.at(i))),
+                                                              R.at(c(i)) == samples.at(i))))
+    h.ensure("len-is-number-kept", R.length() == c(n))
+    h.ensure("input-list-not-mutated", samples.length() == n)
